@@ -1,6 +1,9 @@
 package larking
 
-import "unicode/utf8"
+import (
+	"unicode"
+	"unicode/utf8"
+)
 
 // Reference matcher for path templates over the RAW request path (DESIGN Appendix C.2),
 // independent of larking's lexer and trie.
@@ -47,8 +50,10 @@ func refAllPathChars(s string) bool {
 			i++
 			continue
 		}
+		// beyond ASCII: Unicode letters and numbers (the grammar's "letter" / "number"), written
+		// without larking's isPath
 		r, w := utf8.DecodeRuneInString(s[i:])
-		if r == utf8.RuneError || !isPath(r) {
+		if (r == utf8.RuneError && w <= 1) || !(unicode.IsLetter(r) || unicode.IsNumber(r)) {
 			return false
 		}
 		i += w
